@@ -378,3 +378,45 @@ func verifSpecCL(lowered string) primitive.ConsistencyLevel {
 //@   ensures handshake-replies: $rxBodyTried && $rxBodyOK && typeis($rxMsg, *message.Options) ==> typeis($lastMsg, *message.Supported)
 //@   ensures register-reply: $rxBodyTried && $rxBodyOK && typeis($rxMsg, *message.Register) ==> typeis($lastMsg, *message.Ready)
 //@   modifies *, c.$registered, c.$sent, c.$executed, $reqStarted, $lastReq, $lastMsg, $lastStream, $lastVersion, $lastClient, $qhHandled, $selReached, $selDot, $selErr, $selQual, $selTable, $exId, $exLocal, $rxDecoded, $rxVersion, $rxStream, $rxBodyTried, $rxBodyOK, $rxMsg
+
+// ---------------------------------------------------------------------------------------------
+// C01 / C04 / C05: the request object as a monitor
+//   r.$replies  frames sent to the client for this request (request.send / request.sendRaw)
+// Monitor invariant (established before r.mu is released, assumed when it is acquired, hence valid
+// for every interleaving of the client reader, backend readers and connection closers):
+//   done <=> exactly one reply has been sent; never more than one.
+// ---------------------------------------------------------------------------------------------
+
+//@ type proxy.request
+//@   ghost $replies int
+//@   invariant (self.done ==> self.$replies == 1) && (!self.done ==> self.$replies == 0)
+//@   invariant self.retryCount >= 0
+
+//@ func proxy.request.send [C01, C02]
+//@   requires r != nil && r.client != nil && r.client.conn != nil
+//@   event r.$replies
+//@   modifies nothing
+
+// sendRaw: the reply goes out on the request's own stream id.
+//@ func proxy.request.sendRaw [C01, C02, C03]
+//@   requires r != nil && r.client != nil && r.client.conn != nil && raw != nil && raw.Header != nil
+//@   event r.$replies
+//@   ensures raw.Header.StreamId == r.stream
+//@   modifies raw.Header.StreamId
+
+// executeInternal ("lock before using"): walks the query plan until the request is registered on a
+// backend connection or the plan is exhausted, in which case exactly one error reply is sent.
+//@ loop proxy.request.executeInternal #1
+//@   invariant (r.done ==> r.$replies == 1) && (!r.done ==> r.$replies == 0) && r.retryCount == old(r.retryCount)
+//@   invariant r.$replies >= old(r.$replies) && $sends >= old($sends) && r.qp.$remaining >= 0
+//@   invariant $sends == old($sends) && (!r.done ==> r.$replies == old(r.$replies))
+//@   decreases r.qp.$remaining, ite(r.done, 0, 1), ite(next, 0, 1)
+
+//@ func proxy.request.executeInternal [C01, C05]
+//@   requires r != nil && holds(r.mu) && r.client != nil && r.client.conn != nil && r.client.proxy != nil && r.session != nil && r.qp != nil
+//@   requires (r.done ==> r.$replies == 1) && (!r.done ==> r.$replies == 0) && r.qp.$remaining >= 0
+//@   ensures (r.done ==> r.$replies == 1) && (!r.done ==> r.$replies == 0) && r.retryCount == old(r.retryCount)
+//@   ensures progress: old(r.done) ==> r.$replies == old(r.$replies) && $sends == old($sends)
+//@   ensures outcome: !old(r.done) ==> (r.done && r.$replies == 1 && $sends == old($sends)) || (!r.done && r.$replies == 0 && $sends == old($sends) + 1)
+//@   ensures r.qp.$remaining >= 0
+//@   modifies *, r.$replies, $sends, r.qp.$remaining
